@@ -39,4 +39,6 @@ def obligations(tier, ctx):
                           pre=[f"len(raw) == {ln}", f"all(c in '{alpha}' for c in raw)"],
                           call=f"H.raw_symbolic(raw, {before}, {after})", backend="P", timeout=400, family="pre-serialised string over an 8-character alphabet"))
     obs.append(Ob(name="stdin_failure", params=[("x", "int")], pre=["x == 0"], call="H.stdin_failure((0, 2, 3))", backend="P", timeout=60, family="broken pipe"))
+    from symcheck.runner import mirror
+    obs += mirror(obs, r"^writer_(0|1|9|10|12|14|0_1|9_0|12_10)$", "F", limit=(4 if tier == "quick" else None))
     return obs
